@@ -22,7 +22,7 @@ def edit_prefix(rng, k):
             ops += ['ladderize']
         if rng.random() < 0.1:
             # an operation on a removed / unknown id: refused, and nothing may be left behind
-            ops += ['pick %s %d' % (rng.choice(['removed', 'any']), big), rng.choice(['add_child $0 %s - -' % vf.enc_str('g%d' % s), 'prune $0'])]
+            ops += ['pick removed %d' % big, rng.choice(['add_child $0 %s - -' % vf.enc_str('g%d' % s), 'prune $0'])]
     return ops
 
 class Check(PropCheck):
